@@ -268,9 +268,35 @@ class PropertyRun:
         for ob in all_obs:
             ob.drop_text()
         self.reports.extend(new_reports)
+        self._consistency(new_reports)
         _np4.TRUSTED_USED.update(x for _, r in zip(tasks, results) for x in r.get("trusted", []))
         _spec.LEMMAS_USED.update(x for _, r in zip(tasks, results) for x in r.get("lemmas", []))
         return self.reports
+
+    def _consistency(self, reports):
+        """prover / CPython consistency: the concrete reading of every fully proved contract is evaluated on the REAL function over
+        seeded random small inputs; a clause that the prover discharged but that fails natively means the encoding (or a trusted
+        library contract) is wrong - reported as a checker error, never as a pass."""
+        from vlib import gen
+
+        if os.environ.get("VERIF_NO_CONSISTENCY") == "1":
+            return
+        self.consistency = getattr(self, "consistency", {})
+        for rep in reports:
+            if rep.status != "ok" or not rep.obligations or any(ob.result["status"] != "discharged" for ob in rep.obligations):
+                continue
+            c = rep.contract
+            if c.file.startswith("/verif/"):
+                continue  # property lemmas over contracts: no repository function to call
+            try:
+                ev, sk, bad, und = gen.consistency_sample(c, self.repo, n=16, seed=self.seed, seconds=6.0)
+            except Exception as e:  # noqa: BLE001  (no generator for these parameter types, or the clause is not evaluable concretely)
+                self.consistency[rep.label] = {"evaluated": 0, "note": f"not sampled: {type(e).__name__}: {str(e)[:120]}"}
+                continue
+            self.consistency[rep.label] = {"evaluated": ev, "skipped_precondition": sk, "undecided": und, "violations": len(bad)}
+            for b in bad[:2]:
+                self.crashes.append(f"prover/CPython inconsistency: every obligation of {rep.label} was discharged but the real function breaks "
+                                    f"the contract on a concrete input: {str(b)[:700]}")
 
     def materialize(self, rep, ob):
         """LightOb -> (full report, real Obligation with z3 terms) by regenerating its alternative in this process"""
@@ -452,6 +478,7 @@ class PropertyRun:
             "assumed_at_call_sites": [
                 f"{c.file}:{c.qualname} ({c.notes})" for c in REGISTRY.contracts.values() if c.assumed and any(p == self.pid for p in c.props)
             ],
+            "prover_cpython_consistency": getattr(self, "consistency", {}),
             "dropped_constructs": "type annotations, docstrings, messages of raise/assert/warn (exception type kept), print/print_log, tqdm wrapper, del",
             "undecided": self.undecided,
             "failed": [v["key"] for v in self.violations],
